@@ -178,12 +178,17 @@ impl<'a> G<'a> {
                 other => other,
             }
         };
-        let t = match self.node(depth - 1) {
-            Expr::Empty => lit("b"),
-            other => other,
+        let empty_yes = self.rng.chance(1, 8);
+        let t = if empty_yes {
+            Expr::Empty
+        } else {
+            match self.node(depth - 1) {
+                Expr::Empty => lit("b"),
+                other => other,
+            }
         };
         let f = match self.rng.below(4) {
-            0 => Expr::Empty,
+            0 if !empty_yes => Expr::Empty,
             1 => {
                 // an else part with several alternatives
                 let n = 2 + self.rng.below(3);
@@ -243,6 +248,32 @@ pub fn conditional_families() -> Vec<(Expr, String)> {
         ]);
         if let Some(s) = unparse::unparse(&e, &st) {
             out.push((e, s));
+        }
+    }
+    // an empty yes-branch with a non-empty no-branch (seed S8-C15)
+    for no in [vec!["b"], vec!["b", "c"], vec!["ab", "a"]].iter() {
+        let no_e = if no.len() == 1 { word(no[0]) } else { Expr::Alt(no.iter().map(|w| word(w)).collect()) };
+        let e1 = Expr::Concat(vec![
+            Expr::Repeat { child: Box::new(Expr::Group(Box::new(lit("a")))), lo: 0, hi: 1, greedy: true },
+            Expr::Conditional {
+                condition: Box::new(Expr::BackrefExistsCondition(1)),
+                true_branch: Box::new(Expr::Empty),
+                false_branch: Box::new(unparse::clone_expr(&no_e)),
+            },
+            lit("c"),
+        ]);
+        let e2 = Expr::Concat(vec![
+            Expr::Conditional {
+                condition: Box::new(lit("a")),
+                true_branch: Box::new(Expr::Empty),
+                false_branch: Box::new(unparse::clone_expr(&no_e)),
+            },
+            lit("c"),
+        ]);
+        for e in [e1, e2] {
+            if let Some(s) = unparse::unparse(&e, &st) {
+                out.push((e, s));
+            }
         }
     }
     for x in words.iter() {
